@@ -227,6 +227,7 @@ class MEIExporter:
                     self._handle_gap(position, measure.end.t, voice_el)
 
         self._handle_tuplets(measure_el, start=measure.start.t, end=measure.end.t)
+        self._handle_tuplet_durations(measure_el, note_or_rest_elements)
         self._handle_beams(measure_el, start=measure.start.t, end=measure.end.t)
         self._handle_clef_changes(measure_el, start=measure.start.t, end=measure.end.t)
         self._handle_ks_changes(measure_el, start=measure.start.t, end=measure.end.t)
@@ -384,6 +385,42 @@ class MEIExporter:
             ]
             for el in xml_el_within_tuplet:
                 tuplet_el.append(el)
+
+    def _handle_tuplet_durations(self, measure_el, notes):
+        """
+        Notes and rests whose symbolic duration has a tuplet ratio but that do
+        not belong to a Tuplet object (e.g. in scores that were not read from
+        MusicXML) are wrapped in tuplet elements as well: in MEI the ratio of a
+        duration is given by the enclosing tuplet.
+        """
+        ratio_by_id = {}
+        for n in notes:
+            sd = n.symbolic_duration or {}
+            if sd.get("actual_notes") and sd.get("normal_notes") and n.id is not None:
+                ratio_by_id[n.id] = (sd["actual_notes"], sd["normal_notes"])
+
+        def ratio_of(el):
+            if el.tag == "chord":
+                el = next(iter(el), el)
+            return ratio_by_id.get(el.get(XMLNS_ID))
+
+        for layer_el in measure_el.iter("layer"):
+            run, ratio = [], None
+            for el in list(layer_el) + [None]:
+                r = ratio_of(el) if el is not None else None
+                if r is not None and (ratio is None or r == ratio):
+                    run.append(el)
+                    ratio = r
+                    continue
+                if run:
+                    tuplet_el = etree.Element("tuplet")
+                    layer_el.insert(layer_el.index(run[0]), tuplet_el)
+                    tuplet_el.set(XMLNS_ID, "tuplet-" + self.elc_id())
+                    tuplet_el.set("num", str(ratio[0]))
+                    tuplet_el.set("numbase", str(ratio[1]))
+                    for e in run:
+                        tuplet_el.append(e)
+                run, ratio = ([el], r) if r is not None else ([], None)
 
     def _handle_beams(self, measure_el: lxml.etree._Element, start: int, end: int):
         for beam in self.part.iter_all(spt.Beam, start=start, end=end):
